@@ -26,7 +26,7 @@ Print Assumptions C04_stream.
 Theorem C04_stream_empty_table : forall cs sizes dflt,
   all_nonempty cs = true -> Forall (fun s => 1 <= s)%nat sizes -> (1 <= dflt)%nat ->
   concat (er_run_passthru (er_passthru_fuel cs) cs sizes dflt) = concat cs.
-Proof. intros. apply er_run_passthru_concat; auto. unfold er_passthru_fuel. lia. Qed.
+Proof. intros cs sizes dflt Hn Hs Hd. apply er_run_passthru_concat; auto. Qed.
 Print Assumptions C04_stream_empty_table.
 
 (* the writer side: escaping chunk by chunk = escaping the whole *)
